@@ -343,11 +343,16 @@ macro_rules! literal_2k {
 /// write of a large last chunk short.  Whatever append answers, a record it acknowledged is in the file, all of it.
 /// Records are "LEVEL " + 2048 bytes, through the stock pattern encoder, the message once as a literal without format
 /// arguments and once with one.
-fn short_write_check(problems: &mut Vec<Value>) {
-    for (variant, limit) in [(0usize, 4096u64), (1, 4096), (0, 6000), (1, 2500)] {
+fn short_write_check(problems: &mut Vec<Value>, append_mode: bool) {
+    // (variant 2: records far below the writer's buffer - the limit is hit by the flush that ends a record, not by a write
+    // in the middle of the encoding)
+    for (variant, limit) in [(0usize, 4096u64), (1, 4096), (0, 6000), (1, 2500), (2, 4096), (2, 1000)] {
+        let small = "s".repeat(95);
         let scratch = Scratch::new("fsize");
         let path = scratch.path().join("app.log");
-        let a = FileAppender::builder().encoder(Box::new(log4rs::encode::pattern::PatternEncoder::new("{l} {m}"))).build(&path).unwrap();
+        // (in the mode of this run: a file opened for truncation is emptied when it is opened and at no other time -
+        // FileAppender.tla, Open is the only step that discards)
+        let a = FileAppender::builder().append(append_mode).encoder(Box::new(log4rs::encode::pattern::PatternEncoder::new("{l} {m}"))).build(&path).unwrap();
         unsafe {
             libc::signal(libc::SIGXFSZ, libc::SIG_IGN);
             let mut rl = libc::rlimit { rlim_cur: 0, rlim_max: 0 };
@@ -356,9 +361,11 @@ fn short_write_check(problems: &mut Vec<Value>) {
             libc::setrlimit(libc::RLIMIT_FSIZE, &rl);
         }
         let mut acked = 0usize;
-        for _ in 0..4 {
+        for _ in 0..(if variant == 2 { 60 } else { 4 }) {
             let r = if variant == 0 {
                 catch(|| a.append(&log::Record::builder().level(log::Level::Info).args(format_args!(literal_2k!())).build()))
+            } else if variant == 2 {
+                catch(|| a.append(&log::Record::builder().level(log::Level::Info).args(format_args!("{}", small)).build()))
             } else {
                 catch(|| a.append(&log::Record::builder().level(log::Level::Info).args(format_args!("{}", literal_2k!())).build()))
             };
@@ -366,6 +373,15 @@ fn short_write_check(problems: &mut Vec<Value>) {
                 acked += 1;
             } else {
                 break; // (nothing after the first refusal is of interest: the limit stays reached)
+            }
+        }
+        // the refused record took nothing away: what was acknowledged before it is in the file now, not only after the drop
+        {
+            let content = std::fs::read(&path).unwrap_or_default();
+            let record = if variant == 2 { format!("INFO {}", small) } else { format!("INFO {}", literal_2k!()) };
+            if !(content.len() >= acked * record.len() && (0..acked).all(|k| &content[k * record.len()..(k + 1) * record.len()] == record.as_bytes())) {
+                problems.push(json!({"what": "acknowledged records are no longer in the file after a later record was refused (file size limit)",
+                                     "limit": limit, "append_mode": append_mode, "acknowledged": acked, "file_length": content.len(), "record_length": record.len()}));
             }
         }
         unsafe {
@@ -376,7 +392,7 @@ fn short_write_check(problems: &mut Vec<Value>) {
         }
         drop(a);
         let content = std::fs::read(&path).unwrap_or_default();
-        let record = format!("INFO {}", literal_2k!());
+        let record = if variant == 2 { format!("INFO {}", small) } else { format!("INFO {}", literal_2k!()) };
         let whole = content.len() >= acked * record.len() && (0..acked).all(|k| &content[k * record.len()..(k + 1) * record.len()] == record.as_bytes());
         if !whole {
             problems.push(json!({"what": "a record was acknowledged although the file took only part of it (write cut short by a file size limit)",
@@ -399,7 +415,7 @@ pub fn main(args: &[String]) {
     }
     // (single-threaded from here on: the file size limit is the process's)
     log4rs::verif::set_global_callback(None);
-    short_write_check(&mut problems);
+    short_write_check(&mut problems, append_mode);
     let ev = events.lock().unwrap();
     let hooks = ev.iter().filter(|e| e["e"] == "lock").count();
     write_ndjson(&args[0], &ev);
